@@ -20,13 +20,14 @@ case (JSON):
 Caller ids are global, numbered thread by thread in program order.
 
 observation: {'tr': [event, ...], 'plain_same': bool}
-  ['op', t, c, 'get'|'acq'|'rel'|'set']  decision: thread t performs caller c's gated op
+  ['op', t, c, 'get'|'miss'|'acq'|'rel'|'set'|'xsub']  decision: thread t performs caller c's gated op
+                                         ('miss' = second gate of a cache lookup that raised KeyError)
   ['idle', t] ['har', t, what]           decision: loop wake-up / harness gate
   ['adv', tick]                          virtual time jumps (nothing was enabled)
   ['istart', i, c, tick] ['iend', i, r, tick]   r: 0 ok, 1 exc, 2 cancelled
   ['cancel', c, tick]                    harness delivered task.cancel() to caller c
   ['done', c, kind, payload, tick]       kind 0 Ret v, 1 UserExc inv, 2 Cancelled, 3 LibExc class-id
-  ['proxy', c, r]                        cross-loop wait of c finished on the computing loop: 0 True 1 False 2 cancelled 3 exception
+  ['proxy', t, c, r]                     cross-loop wait of c finished on the computing loop (thread t): 0 True 1 False 2 cancelled 3 exception
   ['loop', t, what]                      0 stop (run_until_complete returned), 1 shutdown begins, 2 shutdown done, 3 closed
   ['end', r]                             0 all threads finished, 1 deadlock, 2 step bound, 3 wall-clock hang
 """
@@ -66,6 +67,7 @@ class Run:
         self.loops = {}
         self.keep = []
         self.gated_cache = gated_cache
+        self.xround = {}
 
     def log(self, *ev):
         self.ctl.trace.append(('ev',) + ev)
@@ -108,9 +110,17 @@ class CDict(dict):
 
     def __getitem__(self, k):
         R = self.run
-        if R is not None and not R.dead and R.ctl.me() is not None:
+        live = R is not None and not R.dead and R.ctl.me() is not None
+        if live:
             R.ctl.gate(f'get:{R.cid()}')
-        return dict.__getitem__(self, k)
+        try:
+            return dict.__getitem__(self, k)
+        except KeyError:
+            if live:
+                # second scheduling point after a miss: the window between the (re-)probe and the
+                # lookup of the in-flight table is a source-line boundary of its own
+                R.ctl.gate(f'miss:{R.cid()}')
+            raise
 
     def __setitem__(self, k, v):
         R = self.run
@@ -250,8 +260,9 @@ def _make_fn(R, lib, cache):
     return lib.threadsafe_async_cache(cache=cache)(user)
 
 
-def run_once(case, gated_cache=True, wall=30.0):
-    """One gated run; returns the canonical trace (list of lists)."""
+def run_once(case, gated_cache=True, wall=30.0, want_choices=False):
+    """One gated run; returns the canonical trace (list of lists)
+    (with want_choices: (trace, [(enabled thread indices, chosen index)] per decision))."""
     import aiuti.asyncio as lib
     logging.disable(logging.CRITICAL)
     warnings.simplefilter('ignore')
@@ -269,6 +280,10 @@ def run_once(case, gated_cache=True, wall=30.0):
     def rcts(coro, loop):
         cid = R.cid()
         me = ctl.me()
+        rnd = R.xround[cid] = R.xround.get(cid, 0) + 1
+        if not R.dead and me is not None:
+            ctl.gate(f'xsub:{cid}')          # scheduling point between leaving the lock and the hand-over
+        R.log('xsub', cid, rnd)
         try:
             fut = old_rcts(coro, loop)
         except BaseException:
@@ -286,7 +301,7 @@ def run_once(case, gated_cache=True, wall=30.0):
                 r = 3
             else:
                 r = 0 if f.result() else 1
-            R.log('proxy', cid, r)
+            R.log('proxy', int(ctl.me()[1:]), cid, r, rnd)
         fut.add_done_callback(cb)
         return fut
 
@@ -324,8 +339,19 @@ def run_once(case, gated_cache=True, wall=30.0):
             except BaseException:
                 pass
     out = []
+    cur = {}          # caller -> number of the cross-loop wait it is currently in
     for e in trace:
-        if e[0] == 'ev':
+        if e[0] == 'ev' and e[1] == 'xsub':
+            cur[e[2]] = e[3]
+        elif e[0] == 'ev' and e[1] == 'proxy':
+            # a proxy wait that finishes after its caller has left that wait (caller cancelled or
+            # timed out, the cancellation of the thread-safe future still in flight) is consumed by
+            # nobody: not part of the canonical trace
+            if cur.get(e[3]) == e[5]:
+                out.append(list(e[1:5]))
+        elif e[0] == 'ev':
+            if e[1] == 'done':
+                cur.pop(e[2], None)
             out.append(list(e[1:]))
         elif e[0] == 'adv':
             out.append(['adv', e[1]])
@@ -334,6 +360,7 @@ def run_once(case, gated_cache=True, wall=30.0):
             op = e[1]
             if ':' in op:
                 k, c = op.split(':')
+                cur.pop(int(c), None)
                 out.append(['op', t, int(c), k])
             elif op == 'idle':
                 out.append(['idle', t])
@@ -342,6 +369,8 @@ def run_once(case, gated_cache=True, wall=30.0):
     for (n, x) in exc:
         out.append(['thread_exc', int(n[1:]), x[:200]])
     out.append(['end', end])
+    if want_choices:
+        return out, [([int(n[1:]) for n in en], int(ch[1:])) for en, ch in ctl.choices]
     return out
 
 
